@@ -297,6 +297,31 @@ def rule_disjunction(run, F, cfg):
            "every element of v; nothing goes through FilterPart::string_view (which joins an AnyOf with `|` "
            "into one literal that can never match)" + (f"; string_view called at {joined}" if joined else ""),
            site=joined[0] if joined else fus.loc(0), config=cfg, detail=f"carried: {carried}")
+    # (a'') the fused pattern keeps ALL collected alternatives: Simple(p[0]) only when there is exactly one,
+    # Empty only when there is none (or a member is Empty), AnyOf(all) otherwise
+    parts = []
+    for b, i, st in fus.statements():
+        if st["k"] == "assign" and st["rv"]["k"] == "agg" and str(st["rv"].get("adt", "")).endswith("FilterPart"):
+            c = dominating_conditions(fus, b, render=fus.vexpr_operand)
+            ops = [fus.vexpr_operand(o) for o in st["rv"]["ops"]]
+            ln = [v for k, v in c.items() if re.match(r"^\(std::vec::Vec::len\(\$flat_patterns\) Eq 1\)$", k)]
+            em = c.get("std::vec::Vec::is_empty($flat_patterns)")
+            anyv = [v for k, v in c.items() if "Iterator>::any(core::slice::iter($filters)" in k]
+            parts.append((st["rv"]["variant"], ops, em, ln[0] if ln else None, anyv[0] if anyv else None))
+    good = True
+    for var, ops, em, ln, anyv in parts:
+        if var == "Empty":
+            good = good and (anyv == 1 or em == 1)
+        elif var == "Simple":
+            good = good and ln == 1 and len(ops) == 1 and bool(re.search(r"index\(\$flat_patterns, 0\)\)?$", ops[0]))
+        elif var == "AnyOf":
+            good = good and ops == ["$flat_patterns"] and em == 0 and ln == 0
+        else:
+            good = False
+    run.ob("C05.4.disjunction", "all-alternatives-kept", good and sorted(p[0] for p in parts) == ["AnyOf", "Empty", "Empty", "Simple"],
+           "fusion builds Empty only if a member is Empty or no pattern was collected, Simple(p[0]) only if exactly "
+           "one pattern was collected, and AnyOf(all collected patterns) otherwise", site=fus.loc(0), config=cfg,
+           detail=str(parts)[:400])
     cl = [c for c in F.closures_of(SPG + "fusion")]
     tests_empty = any(any(t["k"] == "switch" and "discr(" in c.expr_operand(t["discr"]) for t in
                           [c.blocks[b]["t"] for b in c.normal_blocks()]) for c in cl)
